@@ -12,6 +12,7 @@
     ro N S L         get_or_new + make_read_only(L)
     un N S           unset
     sp [p…]          set the positional parameters
+    ee N V           extend_env([(N, V)])
 -/
 import YashModel.Common.Proto
 import YashModel.Variable.Model
@@ -86,11 +87,15 @@ def showRes : Res → String
   | .unset v => s!"un({showOptVar v})"
 
 /-- everything observed after an operation, from the lookups a state offers -/
-def observeWith (r : Res) (names : List Name)
+def showScalar : Option String → String
+  | none => "~"
+  | some x => encStr x
+
+def observeWith (r : Res) (names : List Name) (gs : Name → Option String)
     (get : Name → Option Variable) (scopedF : Name → Scope → Option Variable)
     (iter : Scope → List (Name × Variable)) (env : List (Name × String)) (pp : List String) : String :=
   let vs := names.map fun n =>
-    s!"{encStr n}={showOptVar (get n)}|{showOptVar (scopedF n .global)}|{showOptVar (scopedF n .loc)}|{showOptVar (scopedF n .volatile)}"
+    s!"{encStr n}={showOptVar (get n)}|{showOptVar (scopedF n .global)}|{showOptVar (scopedF n .loc)}|{showOptVar (scopedF n .volatile)}|{showScalar (gs n)}"
   let it (sc : Scope) := ",".intercalate ((iter sc).map fun (n, v) => s!"{encStr n}={showVar v}")
   let ev := ",".intercalate (env.map fun (n, x) => s!"{encStr n}={encStr x}")
   " ".intercalate ([s!"r={showRes r}"] ++ vs ++
@@ -98,25 +103,41 @@ def observeWith (r : Res) (names : List Name)
      s!"pp={",".intercalate (pp.map encStr)}"])
 
 def observeM (s : VariableSet) (r : Res) (names : List Name) : String :=
-  observeWith r names s.get s.getScoped (fun sc => s.iter sc names) (s.env names) s.positionalParams
+  observeWith r names s.getScalar s.get s.getScoped (fun sc => s.iter sc names) (s.env names) s.positionalParams
 
 def observeS (X : SSet) (r : Res) (names : List Name) : String :=
-  observeWith r names (lookup X) X.getScoped (fun sc => X.iter sc names) (X.env names) X.positionalParams
+  observeWith r names X.getScalar (lookup X) X.getScoped (fun sc => X.iter sc names) (X.env names) X.positionalParams
+
+/-- an operation of the case language: an `Op`, or `ee N V` (`extend_env` of one pair) -/
+def parseItem (t : String) : Option (Op ⊕ (Name × String)) :=
+  match words t with
+  | ["ee", n, v] => do pure (.inr (← decStr n, ← decStr v))
+  | _ => (parseOp t).map .inl
+
+def itemName : Op ⊕ (Name × String) → Option Name
+  | .inl op => opName op
+  | .inr (n, _) => some n
 
 def runHistory (line : String) : String :=
   let parts := (splitTrim line ";").filter (· ≠ "")
-  match parts.mapM parseOp with
+  match parts.mapM parseItem with
   | none => "bad-case\t-"
-  | some ops =>
-    let names := namesOf ops
-    let rec go (s : VariableSet) (X : SSet) (ops : List Op) (om os : List String) : List String × List String :=
-      match ops with
+  | some items =>
+    let hs := (items.filterMap itemName).foldl (fun acc n => insertSorted (encStr n) acc) []
+    let names := hs.filterMap decStr
+    let rec go (s : VariableSet) (X : SSet) (items : List (Op ⊕ (Name × String))) (om os : List String) :
+        List String × List String :=
+      match items with
       | [] => (om.reverse, os.reverse)
-      | op :: rest =>
+      | .inl op :: rest =>
         let (s', r) := s.step op
         let (X', q) := X.step op
         go s' X' rest (observeM s' r names :: om) (observeS X' q names :: os)
-    let (om, os) := go VariableSet.new SSet.new ops [] []
+      | .inr (n, v) :: rest =>
+        let s' := s.extendEnv1 n v
+        let X' := X.extendEnv1 n v
+        go s' X' rest (observeM s' .done names :: om) (observeS X' .done names :: os)
+    let (om, os) := go VariableSet.new SSet.new items [] []
     " | ".intercalate om ++ "\t=" ++ " | ".intercalate os
 
 /-! ### script cases: `sh f: S , S ; g: S ; main: S , S` (see `Script.lean`) -/
